@@ -377,6 +377,8 @@ func TestVerif_C04(t *testing.T) {
 	var rc c04Case
 	if r.IsReplay(&rc) {
 		switch rc.Mode {
+		case "hostgas": // part added by the host-call author (c04_hostgas_test.go)
+			c04HostGasReplay(r)
 		case "host":
 			for _, tb := range c04Tables() {
 				if tb.name == rc.Table {
@@ -416,6 +418,8 @@ func TestVerif_C04(t *testing.T) {
 			r.Class(fmt.Sprintf("%s k=%d: %s", tb.name, k, c04CheckHost(r, tb, k, c01Worlds[2])))
 		}
 	}
+	// host calls with a populated accumulation context, incl. transfer's 10 + l (c04_hostgas_test.go)
+	c04HostGasPart(r)
 }
 
 // sub-alphabet of the 4-instruction programs (thorough tier): control flow and gas relevant instances
